@@ -39,6 +39,21 @@ Round 3:
     of the register file; instruction semantics belong to C04/C06, so the model takes the values observed after
     the instruction over -- except for NOP, which writes nothing but PC (and re-syncs the IMR mirror from
     memory): there every other readable value must be unchanged.
+
+Round 4:
+  * REJECTED OPERATIONS LEAVE NO TRACE.  "badload KIND": the running machine (`PCE500Emulator` / `CoreRuntime`) is
+    asked to `load_snapshot` a file its loader refuses -- KIND is generated: no such file, a directory, empty,
+    random bytes, a cut archive, snapshot.json missing / not JSON / wrong magic / wrong version, registers.bin
+    missing / wrong length, external_ram.bin of the wrong size; every bad archive is derived from a valid snapshot
+    the same implementation saved.  If (and only if) the call is observed to fail, every name must read what it
+    read just before it; the history goes on (more writes, valid round trips).  "rtf KIND": the brand-new machine
+    of a file round trip refuses a load first and must still reproduce every value.  "badname": by-name
+    set/get/set_flag/get_flag with a name that is no register must not change any register.
+  * SNAPSHOTS ARE VALUES ALSO UNDER OBSERVATION.  "observe k WHAT": a live snapshot is looked at -- diff / reverse
+    diff / == against another live snapshot or a snapshot of the current file, to_dict (and the caller empties the
+    returned dict), repr, the registers.bin packer, one instruction stepped FROM it (`CPUStepper.step` /
+    `CPU.step_snapshot`) -- and must restore the same values into a fresh register file before and after; the same
+    snapshot object is applied several times.
 """
 
 from __future__ import annotations
@@ -72,10 +87,18 @@ RULE = ("histories of by-name writes (A,B,BA,IL,IH,I,X,Y,U,S,PC,F,FC,FZ,TEMP0..1
         "bytes, memory hash-filled from a generated seed); deterministic sweeps: Rust-only name x every name x "
         "order (independence), every name changed between taking and applying a snapshot x kind x mode, two live "
         "snapshots applied in both orders, NOP between a write and a read-back/snapshot. "
+        "Round 4: rejected operations (a snapshot load the running machine refuses -- 17 generated kinds of missing / "
+        "corrupt / mismatching files derived from a valid snapshot of the same implementation --, a file round trip "
+        "whose brand-new machine refuses such a load first, by-name access with a name that is no register) inside "
+        "histories that go on afterwards; read-only uses of live snapshots (diff, reverse diff, ==, to_dict, repr, "
+        "registers.bin packer, one instruction stepped from the snapshot; operand = another live snapshot or the "
+        "current file) between taking and (repeatedly) applying them; complete sweeps kind x register x start state, "
+        "access x unknown name, observer x operand x register changed, plus seeded histories mixing all of it. "
         "Non-trivial = the history writes a sub-register after "
         "a full-register write of the same register (or vice versa), or interleaves F/FC/FZ(/flag API) writes, "
         "and reads that register afterwards; or applies a snapshot whose source register file changed after the "
-        "snapshot was taken; or reads registers back after an executed instruction / a write to a Rust-only name; "
+        "snapshot was taken, or that was observed since; or reads registers back after an executed instruction / a "
+        "write to a Rust-only name / a rejected operation; "
         "distinct = hash of the op list.")
 
 Op = List[Any]
@@ -98,12 +121,12 @@ def _py_api() -> Dict[str, Any]:
     if not _PY:
         from binja_test_mocks import binja_api  # noqa: F401  (installs the Binary Ninja mock)
         from sc62015.pysc62015.emulator import RegisterName, Registers
-        from sc62015.pysc62015.stepper import CPURegistersSnapshot
+        from sc62015.pysc62015.stepper import CPURegistersSnapshot, CPUStepper
 
         from sc62015.pysc62015.cpu import CPU
 
         _PY.update(RegisterName=RegisterName, Registers=Registers, Snapshot=CPURegistersSnapshot, CPU=CPU,
-                   enum=[RegisterName[n] for n in NAMES])
+                   Stepper=CPUStepper, enum=[RegisterName[n] for n in NAMES])
         try:
             from pce500.emulator import _pack_register_bytes, _unpack_register_bytes
 
@@ -129,6 +152,7 @@ def _scratch_dir() -> str:
 
 def _remove_scratch_dir() -> None:
     d = os.path.join(ROOT, "scratch", f"c08-{os.getpid()}")
+    _BAD_WRITTEN.clear()
     try:
         if os.path.isdir(d):
             for f in os.listdir(d):
@@ -140,7 +164,138 @@ def _remove_scratch_dir() -> None:
 
 
 def _uses_file(ops: Sequence[Op]) -> bool:
-    return any(op[0] == "rtf" for op in ops)
+    return any(op[0] in ("rtf", "badload") for op in ops)
+
+
+def _uses_bad(ops: Sequence[Op]) -> bool:
+    return any(op[0] == "badload" or (op[0] == "rtf" and len(op) > 1) for op in ops)
+
+
+# ---- snapshot files the loaders must REJECT ("badload", "rtf KIND") ----------------------------------------
+#
+# Every bad file is derived from a VALID snapshot (the "template") saved by the implementation that is going to
+# be asked to load it: `PCE500Emulator.save_snapshot` for the Python machine, `CoreRuntime::save_snapshot` for the
+# Rust runtime, both from a brand-new machine whose registers were set to TEMPLATE_REGS (distinctive non-zero
+# values, so a loader that applies registers before it rejects the file shows as well as one that clears them).
+# The kinds are the reasons both loaders reject by their own validation code (pce500/emulator.py:load_snapshot,
+# sc62015/core/src/snapshot.rs:load_snapshot): no such file / a directory / not a zip archive (empty, random bytes,
+# random bytes behind a zip signature, a valid archive cut in the middle or just before its end record) /
+# snapshot.json missing, not JSON, wrong magic, wrong version / registers.bin missing, empty, one byte short or one byte
+# too long / external_ram.bin one byte or 4 KB short.  Whether a load WAS rejected is observed, never assumed.
+
+TEMPLATE_REGS: Tuple[Tuple[str, int], ...] = (
+    ("BA", 0x1E2D), ("I", 0x3C4B), ("X", 0x5A697), ("Y", 0x78869), ("U", 0x96A5B), ("S", 0xB4C3D), ("PC", 0xD2E1F),
+    ("F", 0x5B)) + tuple((f"TEMP{i}", (0x0F0F01 * (i + 1)) & 0xFFFFFF) for i in range(14))
+
+BAD_PATH_KINDS: Tuple[str, ...] = ("missing", "dir")
+BAD_BYTES_KINDS: Tuple[str, ...] = ("empty", "garbage", "garbage-pk", "cut-half", "cut-tail", "no-meta",
+                                    "meta-notjson", "magic", "version", "no-regs", "regs-empty", "regs-short",
+                                    "regs-long", "ram-short", "ram-page-short")
+BAD_KINDS: Tuple[str, ...] = BAD_PATH_KINDS + BAD_BYTES_KINDS
+
+_BAD: Dict[str, Dict[str, bytes]] = {}     # "py" / "rs" -> kind -> file contents (built once, inherited by forks)
+_BAD_WRITTEN: Dict[str, bool] = {}         # which of them exist in this process' scratch directory
+
+
+def _rezip(src: bytes, edit: Any) -> bytes:
+    import io
+    import zipfile
+
+    with zipfile.ZipFile(io.BytesIO(src), "r") as zf:
+        entries = [(n, zf.read(n)) for n in zf.namelist()]
+    buf = io.BytesIO()
+    with zipfile.ZipFile(buf, "w", zipfile.ZIP_DEFLATED) as out:
+        for n, data in entries:
+            data = edit(n, data)
+            if data is not None:
+                out.writestr(zipfile.ZipInfo(n, date_time=(1980, 1, 1, 0, 0, 0)), data,
+                             compress_type=zipfile.ZIP_DEFLATED)
+    return buf.getvalue()
+
+
+def _derive_bad(template: bytes) -> Dict[str, bytes]:
+    import json
+
+    def only(name: str, f: Any) -> Any:
+        return lambda n, d: f(d) if n == name else d
+
+    def meta(**kw: Any) -> Any:
+        def f(d: bytes) -> bytes:
+            m = json.loads(d)
+            m.update(kw)
+            return json.dumps(m).encode()
+        return only("snapshot.json", f)
+
+    noise = bytes(mix32(0xBAD, i) & 0xFF for i in range(4096))
+    out = {
+        "empty": b"",
+        "garbage": noise,
+        "garbage-pk": b"PK\x03\x04" + noise,
+        "cut-half": template[:len(template) // 2],
+        "cut-tail": template[:-9],
+        "no-meta": _rezip(template, only("snapshot.json", lambda d: None)),
+        "meta-notjson": _rezip(template, only("snapshot.json", lambda d: b"{not json")),
+        "magic": _rezip(template, meta(magic="pc-e500.snapsh0t")),
+        "version": _rezip(template, meta(version=1)),
+        "no-regs": _rezip(template, only("registers.bin", lambda d: None)),
+        "regs-empty": _rezip(template, only("registers.bin", lambda d: b"")),
+        "regs-short": _rezip(template, only("registers.bin", lambda d: d[:-1])),
+        "regs-long": _rezip(template, only("registers.bin", lambda d: d + b"\x5a")),
+        "ram-short": _rezip(template, only("external_ram.bin", lambda d: d[:-1])),
+        "ram-page-short": _rezip(template, only("external_ram.bin", lambda d: d[:-4096])),
+    }
+    if set(out) != set(BAD_BYTES_KINDS):
+        raise HarnessError("bad snapshot kinds out of sync")
+    return out
+
+
+def _ensure_bad(client: Any = None) -> None:
+    """Build the bad-file contents once per process tree (run() does it in the parent, before the fork)."""
+    if _BAD:
+        return
+    api = _py_api()
+    d = _scratch_dir()
+    built: Dict[str, Dict[str, bytes]] = {}
+    path = os.path.join(d, "c08-template.pcsnap")
+    try:
+        resp = (client or rsclient.shared()).call({"cmd": "c08.template", "path": path,
+                                                   "regs": [list(p) for p in TEMPLATE_REGS]})
+        if not resp.get("ok"):
+            raise HarnessError(f"c08.template failed: {resp}")
+        with open(path, "rb") as fh:
+            built["rs"] = _derive_bad(fh.read())
+        os.remove(path)
+        if api.get("Emulator") is not None:
+            emu = _py_machine(api)
+            for n, v in TEMPLATE_REGS:
+                emu.cpu.regs.set_by_name(n, v)
+            emu.save_snapshot(path)
+            with open(path, "rb") as fh:
+                built["py"] = _derive_bad(fh.read())
+    finally:
+        try:
+            os.remove(path)
+        except OSError:
+            pass
+    _BAD.update(built)
+
+
+def _bad_paths(which: str) -> Dict[str, str]:
+    """kind -> path of the bad file for one implementation; the files are (re)written into this process' scratch
+    directory on first use after it was emptied."""
+    _ensure_bad()
+    if which not in _BAD:
+        return {}
+    d = _scratch_dir()
+    paths = {k: os.path.join(d, f"c08-bad-{which}-{k}.pcsnap") for k in BAD_BYTES_KINDS}
+    if not _BAD_WRITTEN.get(which):
+        for k, p in paths.items():
+            with open(p, "wb") as fh:
+                fh.write(_BAD[which][k])
+        _BAD_WRITTEN[which] = True
+    paths["missing"] = os.path.join(d, f"c08-bad-{which}-no-such-file.pcsnap")
+    paths["dir"] = d
+    return paths
 
 
 def _py_machine(api: Dict[str, Any]) -> Any:
@@ -152,19 +307,33 @@ def _py_read_all(regs: Any, api: Dict[str, Any]) -> List[int]:
     return [regs.get(r) for r in api["enum"]]
 
 
-def _py_file_roundtrip(emu: Any, api: Dict[str, Any]) -> Any:
-    """PCE500Emulator.save_snapshot(path) -> a brand-new machine's load_snapshot(path); returns that machine."""
+def _py_try_load(emu: Any, path: str) -> Tuple[bool, Optional[str]]:
+    """(rejected?, exception type) of `emu.load_snapshot(path)`."""
+    try:
+        emu.load_snapshot(path)
+    except Exception as exc:  # noqa: BLE001 -- the rejection IS the observation
+        return True, type(exc).__name__
+    return False, None
+
+
+def _py_file_roundtrip(emu: Any, api: Dict[str, Any], bad_first: Optional[str] = None) -> Tuple[Any, Any]:
+    """PCE500Emulator.save_snapshot(path) -> a brand-new machine's load_snapshot(path); returns that machine and,
+    when the new machine was first asked to load the bad file `bad_first`, (rejected?, its read-all afterwards)."""
     path = os.path.join(_scratch_dir(), "c08-py.pcsnap")
+    pre = None
     try:
         emu.save_snapshot(path)
         fresh = _py_machine(api)
+        if bad_first is not None:
+            rejected, _ = _py_try_load(fresh, bad_first)
+            pre = (rejected, _py_read_all(fresh.cpu.regs, api))
         fresh.load_snapshot(path)
     finally:
         try:
             os.remove(path)
         except OSError:
             pass
-    return fresh
+    return fresh, pre
 
 
 NOP = "00"
@@ -270,6 +439,65 @@ def _py_exec(host: _PyHost, hexbytes: str, seed: int) -> Optional[str]:
     return None
 
 
+OBSERVERS: Tuple[str, ...] = ("diff", "rdiff", "eq", "to_dict", "repr", "pack", "step")
+
+
+def _py_probe(snap: Any, api: Dict[str, Any]) -> List[int]:
+    """What a snapshot restores: `apply_to` a brand-new `Registers()`, read everything."""
+    regs = api["Registers"]()
+    snap.apply_to(regs)
+    return _py_read_all(regs, api)
+
+
+def _py_observe(host: "_PyHost", slots: List[Any], snap: Any, op: Op) -> Dict[str, Any]:
+    """A read-only use of a live snapshot object; reports what the snapshot (and the other snapshot handed to the
+    observer, when that is a live slot too) restores before and after."""
+    api = host.api
+    what, arg = str(op[2]), (op[3] if len(op) > 3 else None)
+    other = slots[arg] if isinstance(arg, int) and 0 <= arg < SLOTS else None
+    o: Dict[str, Any] = {"pre": _py_probe(snap, api)}
+    if other is not None:
+        o["opre"] = _py_probe(other, api)
+    operand = other if other is not None else host.snapshot(True)   # else: a snapshot of the current register file
+    err = None
+    try:
+        if what == "diff":
+            n = len(snap.diff(operand))
+        elif what == "rdiff":
+            n = len(operand.diff(snap))
+        elif what == "eq":
+            n = int(snap == operand) + int(snap != operand)
+        elif what == "to_dict":
+            d = snap.to_dict()
+            n = len(d)
+            d.clear()          # the returned dictionary is the caller's
+        elif what == "repr":
+            n = len(repr(snap))
+        elif what == "pack":
+            n = len(api["pack"](snap)) if api["pack"] is not None else 0
+        elif what == "step":
+            # one instruction FROM the snapshot: CPU.step_snapshot on a facade host, CPUStepper.step otherwise
+            image = {(int(snap.pc) + i) & 0xFFFFFF: b for i, b in enumerate(bytes.fromhex(str(arg or NOP)))}
+            if host.cpu is not None and getattr(host.cpu, "backend", None) == "python":
+                res = host.cpu.step_snapshot(snap, image)
+            else:
+                res = api["Stepper"](backend="python").step(snap, image)
+            n = len(res.changed_registers)
+        else:
+            raise HarnessError(f"unknown observer {op}")
+    except HarnessError:
+        raise
+    except BaseException as exc:  # noqa: BLE001 -- what the observer returns / raises is not this property's business
+        if isinstance(exc, (KeyboardInterrupt, SystemExit, MemoryError)):
+            raise
+        n, err = 0, type(exc).__name__
+    o["n"], o["err"] = n, err
+    o["post"] = _py_probe(snap, api)
+    if other is not None:
+        o["opost"] = _py_probe(other, api)
+    return o
+
+
 def py_run(ops: Sequence[Op]) -> List[Any]:
     """Observations aligned with ops; an exception ends the list with {"error": ...}."""
     api = _py_api()
@@ -312,11 +540,51 @@ def py_run(ops: Sequence[Op]) -> List[Any]:
                 before = _py_read_all(regs, api)
                 fresh = _PyHost.__new__(_PyHost)
                 fresh.api, fresh.kind, fresh.mem = api, "machine", None
-                fresh.emu = _py_file_roundtrip(host.emu, api)
+                bad_first = _bad_paths("py").get(str(op[1])) if len(op) > 1 else None
+                fresh.emu, pre = _py_file_roundtrip(host.emu, api, bad_first)
                 fresh.regs = fresh.emu.cpu.regs
                 fresh.cpu = fresh.emu.cpu if host.cpu is not None else None
                 host = fresh
-                out.append({"before": before, "after": _py_read_all(host.regs, api), "blob": ""})
+                o = {"before": before, "after": _py_read_all(host.regs, api), "blob": ""}
+                if pre is not None:
+                    o["pre_rej"], o["mid"] = pre
+                out.append(o)
+            elif verb == "badload":
+                before = _py_read_all(regs, api)
+                rejected, exc_name = True, None
+                path = _bad_paths("py").get(str(op[1])) if host.emu is not None else None
+                if path is not None:  # only a machine has a snapshot loader
+                    rejected, exc_name = _py_try_load(host.emu, path)
+                    host.regs = host.emu.cpu.regs
+                out.append({"before": before, "after": _py_read_all(host.regs, api), "rej": rejected,
+                            "exc": exc_name})
+            elif verb == "badname":
+                if op[2] in NAMES or op[2] in RUST_ONLY or op[2] in FLAG_NAME:
+                    raise HarnessError(f"badname: {op[2]} is a register / flag name")
+                before = _py_read_all(regs, api)
+                try:
+                    if op[1] == "set":
+                        regs.set_by_name(op[2], int(op[3]))
+                    elif op[1] == "get":
+                        regs.get_by_name(op[2])
+                    elif op[1] == "setflag":
+                        regs.set_flag(op[2], int(op[3]))
+                    elif op[1] == "getflag":
+                        regs.get_flag(op[2])
+                    else:
+                        raise HarnessError(f"unknown op {op}")
+                    rejected = False
+                except HarnessError:
+                    raise
+                except Exception:  # noqa: BLE001 -- an unknown name is expected to be refused
+                    rejected = True
+                out.append({"before": before, "after": _py_read_all(regs, api), "rej": rejected})
+            elif verb == "observe":
+                snap = slots[int(op[1])]
+                if snap is None:
+                    out.append(None)
+                else:
+                    out.append(_py_observe(host, slots, snap, op))
             elif verb == "snap":
                 taken = _py_read_all(regs, api)
                 snap = host.snapshot(True)
@@ -362,6 +630,8 @@ def rs_run(seqs: Sequence[Sequence[Op]]) -> List[Dict[str, Any]]:
     req: Dict[str, Any] = {"cmd": "c08.run", "seqs": [list(s) for s in seqs]}
     if any(_uses_file(s) for s in seqs):
         req["dir"] = _scratch_dir()
+    if any(_uses_bad(s) for s in seqs):
+        req["bad"] = _bad_paths("rs")
     try:
         resp = rsclient.shared().call(req)
     except HarnessError:
@@ -380,7 +650,7 @@ def rs_run(seqs: Sequence[Sequence[Op]]) -> List[Dict[str, Any]]:
     raise HarnessError(f"c08.run failed: {resp}")
 
 
-_ALL_KEYS = ("before", "after", "cur")
+_ALL_KEYS = ("before", "after", "cur", "mid", "pre", "post", "opre", "opost")
 
 
 def _rs_obs(obs: List[Any], key: str) -> Tuple[List[Any], List[Any]]:
@@ -410,6 +680,11 @@ def _rs_obs(obs: List[Any], key: str) -> Tuple[List[Any], List[Any]]:
                 d["blob"] = o["blob"]
             if "err" in o:
                 d["err"] = o["err"][key]
+            for k in ("rej", "pre_rej", "n"):
+                if k in o:
+                    d[k] = o[k][key]
+            if "why" in o:
+                d["why"] = o["why"]
             out.append(d)
             xout.append(x)
     return out, xout
@@ -565,6 +840,9 @@ def walk_model(ops: Sequence[Op], detailed: bool = True,
                     xwriter[n] = _once(xwriter[n], ", then a snapshot round trip")
                 xout.append({"before": pre, "after": xexp()})
                 labels.append("roundtrip:" + verb)
+                if verb == "rtf" and len(op) > 1:
+                    labels.append("roundtrip:rtf-after-rejected-load")
+                    labels.append("rejected-load-kind:" + str(op[1]))
                 if snaps and since:
                     # a register file that was itself restored from a snapshot, then written, is snapshotted
                     labels.append(f"chain:{verb}-of-restored-file:{since}-changed")
@@ -602,6 +880,12 @@ def walk_model(ops: Sequence[Op], detailed: bool = True,
             if sl["file"] != file_no:
                 labels.append("deferred:of-an-earlier-register-file")
             labels.append("live-at-apply:%d" % sum(1 for x in slots if x is not None))
+            if sl.get("observed"):
+                nt = True
+                labels.append("nt:apply-after-observed")
+            sl["applied"] = sl.get("applied", 0) + 1
+            if sl["applied"] == 2:
+                labels.append("applied-more-than-once")
             if changed or sl["n_exec"] != n_exec:
                 nt = True
                 labels.append("nt:deferred-apply-after-source-changed")
@@ -649,6 +933,36 @@ def walk_model(ops: Sequence[Op], detailed: bool = True,
             if snaps:
                 since = since or "core"
             pending_x = "nt:read-back-after-exec"
+        elif verb in ("badload", "badname"):
+            # an operation the register file refuses: the model does not move
+            note_read(NAMES)
+            out.append(exp_all())
+            xout.append({"before": xexp()})
+            pending_x = "nt:read-back-after-rejected-operation"
+            if verb == "badload":
+                labels.append("rejected-load-kind:" + str(op[1]))
+                labels.append("rejected-load:" + ("registers-nonzero" if any(m.read_all()) else "registers-zero"))
+                if snaps:
+                    labels.append("rejected-load:on-a-restored-register-file")
+            else:
+                labels.append("unknown-name:" + str(op[1]))
+        elif verb == "observe":
+            sl = slots[int(op[1])]
+            if sl is None:
+                out.append(None)
+                xout.append(None)
+                continue
+            arg = op[3] if len(op) > 3 else None
+            osl = slots[arg] if isinstance(arg, int) and not isinstance(arg, bool) and 0 <= arg < SLOTS else None
+            out.append({"j": sl["i"], "oj": osl["i"] if osl is not None else None})
+            xout.append(None)
+            labels.append("observe:" + str(op[2]))
+            labels.append("observe:operand-" + ("live-snapshot" if osl is not None else "current-file"))
+            if any(v for n, v in zip(NAMES, sl["values"]) if n.startswith("TEMP")):
+                labels.append("observe:snapshot-with-live-TEMPs")
+            sl["observed"] = True
+            if osl is not None:
+                osl["observed"] = True
         elif verb == "host":
             labels.append("py-host:" + str(op[1]))
             out.append(None)
@@ -693,6 +1007,20 @@ def _impl_ok(ops: Sequence[Op], exp: List[Any], xexp: List[Any], obs: List[Any],
                 if o["before"] != e or o["after"] != e:
                     return False
                 if x is not None and not (_x_ok(xexp[i]["before"], x["before"]) and _x_ok(xexp[i]["after"], x["after"])):
+                    return False
+                if "pre_rej" in o and (not o["pre_rej"] or any(o["mid"]) or (x is not None and any(x["mid"]))):
+                    return False
+            elif verb in ("badload", "badname"):
+                if o["before"] != e or o["after"] != e or (verb == "badload" and not o["rej"]):
+                    return False
+                if x is not None and not (_x_ok(xexp[i]["before"], x["before"]) and x["after"] == x["before"]):
+                    return False
+            elif verb == "observe":
+                if e is None:
+                    if o is not None:
+                        return False
+                    continue
+                if o["pre"] != obs[e["j"]] or o["post"] != o["pre"] or o.get("opost") != o.get("opre"):
                     return False
             elif verb == "apply":
                 if e is None:
@@ -810,11 +1138,42 @@ def _not_reproduced(impl: str, kind: str, names: Sequence[str], ref: List[int], 
     return out
 
 
+def _frame(names: Sequence[str], before: Sequence[int], after: Sequence[int]) -> List[Tuple[str, int, int]]:
+    """(name, before, after) of every changed value, one per backing store (aliases only if the full register is
+    unchanged) -- the same bucketing as the round-trip verdicts."""
+    bad = {n: (b, a) for n, b, a in zip(names, before, after) if a != b}
+    out: List[Tuple[str, int, int]] = []
+    for g, members in MEMBERS.items():
+        mb = [n for n in members if n in bad]
+        for n in ([g] if g in mb else mb):
+            out.append((n, bad[n][0], bad[n][1]))
+    return out
+
+
+REJECT_SYMPTOM = "an operation that was rejected changed the register file"
+NO_NAME_SYMPTOM = "an access that names no register changed the register file"
+
+
+def _no_trace(impl: str, what: str, before: Sequence[int], after: Sequence[int], xbefore: Any, xafter: Any,
+              case: Dict[str, Any], i: int, op: Op, how: str, symptom: str = REJECT_SYMPTOM) -> List[Violation]:
+    """A refused operation leaves no trace: every name reads after it what it read just before it."""
+    out = [Violation("reject", f"{impl} {what}: {_fp_name(n)}", symptom, case,
+                     f"op#{i} {op}: {impl} {n} read {b:#x} before and {a:#x} after {how}")
+           for n, b, a in _frame(NAMES, before, after)]
+    if xbefore is not None and xafter is not None:
+        out += [Violation("reject", f"{impl} {what}: {n}", symptom, case,
+                          f"op#{i} {op}: {impl} {n} read {b:#x} before and {a:#x} after {how}")
+                for n, b, a in zip(XNAMES, xbefore, xafter) if a != b]
+    return out
+
+
 def check_impl(impl: str, ops: Sequence[Op], exp: List[Any], xexp: List[Any], obs: List[Any],
                xobs: Optional[List[Any]], case: Dict[str, Any], notes: List[str]) -> List[Violation]:
     """Compare one register file's observations with the model; stop at the first failing op."""
     out: List[Violation] = []
     kinds: Dict[int, str] = {}   # slot -> "direct" | "blob"
+    good: Dict[int, bool] = {}   # slot -> an earlier use of the live snapshot reproduced every value
+    zeros = [0] * len(NAMES)
     for i, op in enumerate(ops):
         if i >= len(obs) or i >= len(exp):
             break
@@ -839,10 +1198,55 @@ def check_impl(impl: str, ops: Sequence[Op], exp: List[Any], xexp: List[Any], ob
                 out += _check_x(impl, xe["all"], x, case, i, op)
             if verb == "snap":
                 kinds[int(op[1])] = "blob" if op[2] == "b" else "direct"
+                good.pop(int(op[1]), None)
+        elif verb in ("badload", "badname"):
+            out += _check_all(impl, e, o["before"], case, i, op, notes)
+            if x is not None:
+                out += _check_x(impl, xe["before"], x["before"], case, i, op)
+            if not out:
+                if verb == "badload" and not o["rej"]:
+                    # the loader took the file: what the registers hold now is the file's business, and the model
+                    # cannot follow -- nothing after this op is judged for this register file
+                    notes.append(f"rejected-load:ACCEPTED:{impl}:{op[1]}")
+                    return out
+                if verb == "badload":
+                    out += _no_trace(impl, "rejected snapshot load", o["before"], o["after"],
+                                     x["before"] if x is not None else None, x["after"] if x is not None else None,
+                                     case, i, op, f"the refused load_snapshot ({op[1]}: {o.get('why') or o.get('exc')})")
+                else:
+                    out += _no_trace(impl, "access by a name that is no register", o["before"], o["after"],
+                                     x["before"] if x is not None else None, x["after"] if x is not None else None,
+                                     case, i, op, f"{op[1]} by the name {op[2]!r}", NO_NAME_SYMPTOM)
+        elif verb == "observe":
+            if e is None:
+                continue
+            k = int(op[1])
+            kind = kinds.get(k, "direct")
+            if good.get(k) is None:
+                # first use of this snapshot: the deferred-snapshot oracle (values read when it was taken)
+                out += _not_reproduced(impl, kind, NAMES, obs[e["j"]], o["pre"], None, case, i, op)
+            for who, pre, post in (("observed by", o["pre"], o["post"]),
+                                   ("handed to", o.get("opre"), o.get("opost"))):
+                if out or pre is None or post is None:
+                    continue
+                out += [Violation("observe", f"{impl} {kind} snapshot {who} {op[2]}: {_fp_name(n)}",
+                                  "a live snapshot restores a different value after a read-only use", case,
+                                  f"op#{i} {op}: applied to a fresh register file the snapshot restored {n} = {b:#x} "
+                                  f"before and {a:#x} after the observer ran")
+                        for n, b, a in _frame(NAMES, pre, post)]
+            if not out:
+                good[k] = True
         elif verb in ("rt", "rtb", "rtf"):
             out += _check_all(impl, e, o["before"], case, i, op, notes)
             if x is not None:
                 out += _check_x(impl, xe["before"], x["before"], case, i, op)
+            if not out and "pre_rej" in o:
+                if not o["pre_rej"]:
+                    notes.append(f"rejected-load:ACCEPTED:{impl}:{op[1]}")
+                    return out      # the new runtime is no fresh register file any more: not judged further
+                out += _no_trace(impl, "rejected snapshot load", zeros, o["mid"],
+                                 [0] * len(XNAMES) if x is not None else None, x["mid"] if x is not None else None,
+                                 case, i, op, f"a brand-new machine refused load_snapshot ({op[1]})")
             if not out:
                 kind = "direct" if verb == "rt" else "blob" if verb == "rtb" else _file_kind(impl, ops)
                 out += _not_reproduced(impl, kind, NAMES, o["before"], o["after"], None, case, i, op)
@@ -855,8 +1259,15 @@ def check_impl(impl: str, ops: Sequence[Op], exp: List[Any], xexp: List[Any], ob
             if x is not None:
                 out += _check_x(impl, xe["cur"], x["cur"], case, i, op)
             if not out:
-                out += _not_reproduced(impl, kinds.get(int(op[1]), "direct"), NAMES, obs[e["j"]], o["after"],
-                                       o["cur"], case, i, op)
+                nr = _not_reproduced(impl, kinds.get(int(op[1]), "direct"), NAMES, obs[e["j"]], o["after"],
+                                     o["cur"], case, i, op)
+                if nr and good.get(int(op[1])):
+                    # an earlier use of the very same snapshot object reproduced every value
+                    nr = [Violation(v.subcheck, v.where, "value reproduced by an earlier application of the same "
+                                    "snapshot is not reproduced any more", v.case, v.detail) for v in nr]
+                out += nr
+                if not out:
+                    good[int(op[1])] = True
                 if x is not None and not out:
                     out += _check_x(impl, xe["after"], x["after"], case, i, op)
         elif verb == "exec":
@@ -898,6 +1309,10 @@ def check_temp_diff(ops: Sequence[Op], all_obs: Dict[str, List[Any]], case: Dict
 
     n_ops = min(len(all_obs[k]) for k in all_obs)
     for i in range(n_ops):
+        if ops[i][0] in ("badload", "rtf") and any(
+                isinstance(all_obs[k][i], dict) and (all_obs[k][i].get("rej") is False
+                                                     or all_obs[k][i].get("pre_rej") is False) for k in all_obs):
+            return []   # a loader accepted the file: the register files legitimately went different ways
         if ops[i][0] == "exec" and not (ops[i][1] == NOP and all(
                 isinstance(all_obs[k][i], dict) and not all_obs[k][i].get("err") for k in all_obs)):
             # Python lifts through LLIL temporaries, the Rust executor does not use TEMPn: after an executed
@@ -1249,6 +1664,134 @@ def deferred_sequences(seed: int, shard: int, n: int) -> List[List[Op]]:
     return out
 
 
+# names that are no register of either register file (upper case: the Rust facade folds case); "TEMP14X" & co. probe
+# the prefix parsers.  None of them may be read as an alias of a real register by a reasonable implementation.
+BAD_NAMES: Tuple[str, ...] = ("", "NOPE", "Q", "AB", "BAX", "XY", "TEMP", "TEMP-1", "TEMP14X", "FCZ", "PCC", "R0",
+                              "IMRX")
+BAD_ACCESS: Tuple[str, ...] = ("set", "get", "setflag", "getflag")
+R4_LOAD_TARGETS_QUICK: Tuple[str, ...] = ("A", "F", "X", "TEMP0")
+R4_LOAD_TARGETS_THOROUGH: Tuple[str, ...] = ("A", "IH", "F", "flag:Z", "X", "S", "PC", "TEMP0", "TEMP13")
+
+
+def _observe_op(st: Stream, k: int, live: Sequence[int]) -> Op:
+    what = st.choice(OBSERVERS)
+    if what in ("diff", "rdiff", "eq"):
+        return ["observe", k, what, st.choice(list(live)) if live and st.chance(1, 2) else "cur"]
+    if what == "step":
+        if st.chance(1, 2):
+            return ["observe", k, what, NOP]
+        head, n = st.choice(EXEC_TEMPLATES)
+        return ["observe", k, what, head + "".join("%02x" % st.below(256) for _ in range(n))]
+    return ["observe", k, what, None]
+
+
+def sweep_round4_cases(tier: str) -> Iterator[Tuple[str, List[Op]]]:
+    """Complete enumerations added in round 4 (family label, ops)."""
+    variants = (0, 1) if tier == "quick" else (0, 1, 2)
+    targets = R4_LOAD_TARGETS_QUICK if tier == "quick" else R4_LOAD_TARGETS_THOROUGH
+    # (a) a snapshot load the running machine refuses, for every reason the loaders know; then a valid round trip
+    #     and the same refusal on the machine that was itself restored from a file
+    for variant in variants:
+        pre = _prefill(variant)
+        for kind in BAD_KINDS:
+            for t in targets:
+                yield "sweep:rejected-load", pre + [_write_op(t, 0x00A55A3C), ["all"], ["badload", kind], ["all"],
+                                                    ["rtf"], ["all"], _write_op(t, 0x005AA5C3), ["badload", kind],
+                                                    ["all"]]
+                # (b) the brand-new machine of a round trip refuses a load first
+                yield "sweep:rejected-load", pre + [_write_op(t, 0x00A55A3C), ["all"], ["rtf", kind], ["all"],
+                                                    _write_op(t, 0x005AA5C3), ["rtf"], ["all"]]
+    # (c) by-name access with a name that is no register
+    k = 0
+    for variant in variants:
+        pre = _prefill(variant)
+        for how in BAD_ACCESS:
+            for name in BAD_NAMES:
+                k += 1
+                yield "sweep:unknown-name", pre + [["set", "A", 0x5A], ["badname", how, name, 0xFFFFFFFF], ["all"],
+                                                   ["rt" if k % 2 else "rtb"], ["badname", how, name, 1], ["all"]]
+    # (d) a live snapshot is looked at (every observer x operand kind) between being taken and being applied -- twice
+    k = 0
+    for variant in variants:
+        pre = _prefill(variant)
+        for t in ALL_TARGETS:
+            for what, arg in (("diff", "cur"), ("diff", 1), ("rdiff", "cur"), ("rdiff", 1), ("eq", 1),
+                              ("to_dict", None), ("repr", None), ("pack", None), ("step", NOP), ("step", "0855")):
+                k += 1
+                head: List[Op] = [["host", "cpu"]] if k % 3 == 0 else []
+                yield "sweep:observed", head + pre + [_write_op(t, 0x00A55A3C), ["snap", 0, "b" if k % 4 == 1 else "d"],
+                                                      _write_op(t, 0x005AA5C3 if k % 2 else 0x00A55A3C),
+                                                      ["snap", 1, "d"], ["observe", 0, what, arg],
+                                                      ["apply", 0, "peek"], ["observe", 0, what, arg],
+                                                      ["apply", 1, "peek"], ["apply", 0, "replace"], ["all"]]
+
+
+def round4_sequences(seed: int, shard: int, n: int) -> List[List[Op]]:
+    """Seeded histories around *rejected operations* and *observed snapshots*: rounds of writes, then one of: take a
+    snapshot / look at a live snapshot (diff, ==, to_dict, repr, pack, one instruction stepped from it; the other
+    operand is another live snapshot or the current file) / apply a live snapshot / access by an unknown name / a
+    snapshot load that is refused (machine histories) / a file round trip whose new machine refuses a load first;
+    every live snapshot is applied at the end, half of them after one more observation."""
+    out: List[List[Op]] = []
+    for j in range(n):
+        st = Stream(seed, 0xC08, 0x0B5, shard, j)
+        flavour = st.below(10)      # 0-3 plain Registers, 4-5 CPU facade, 6-7 CPU facade + exec, 8-9 machine (files)
+        machine = flavour >= 8
+        ops: List[Op] = [["host", "cpu"]] if 4 <= flavour <= 5 else []
+        if st.chance(1, 2):
+            ops += _prefill(1 + st.below(2))
+        live: List[int] = []
+        for _ in range(2 + st.below(5)):
+            for _ in range(1 + st.below(3)):
+                k = st.below(4)
+                v = st.choice(BOUNDARY) if k < 2 else st.u32() if k == 2 else st.u32() & 0xFFFF
+                r = st.below(20)
+                if r < 10:
+                    ops.append(["set", st.choice(TEMP_NAMES), v])
+                elif r < 17:
+                    ops.append(["set", st.choice(CORE_NAMES), v])
+                elif r < 18:
+                    ops.append(["setflag", st.choice(("C", "Z")), v])
+                else:
+                    ops.append(["set", st.choice(XNAMES + WNAMES), v])
+            if 6 <= flavour <= 7 and st.chance(1, 3):
+                ops.append(_exec_op(st, (1, 3)))
+            r = st.below(12)
+            if r < 3 or not live:
+                k = st.below(SLOTS)
+                ops.append(["snap", k, "b" if st.chance(1, 4) else "d"])
+                if k not in live:
+                    live.append(k)
+            elif r < 6:
+                k = st.choice(live)
+                ops.append(_observe_op(st, k, live))
+                if st.chance(1, 2):
+                    ops.append(["apply", k, "peek"])
+            elif r < 8:
+                ops.append(["apply", st.choice(live), "peek" if st.chance(1, 2) else "replace"])
+                ops.append(["all"])
+            elif r < 9:
+                ops.append(["badname", st.choice(BAD_ACCESS), st.choice(BAD_NAMES), v])
+                ops.append(["all"])
+            elif r < 11:
+                ops.append(["badload", st.choice(BAD_KINDS)] if machine else ["rt"])
+                ops.append(["all"])
+            else:
+                if machine:
+                    ops.append(["rtf", st.choice(BAD_KINDS)] if st.chance(1, 2) else ["rtf"])
+                else:
+                    ops.append(["rtb"])
+                ops.append(["all"])
+        while live:
+            k = live.pop(st.below(len(live)))
+            if st.chance(1, 2):
+                ops.append(_observe_op(st, k, live))
+            ops.append(["apply", k, "replace" if not live or st.chance(1, 3) else "peek"])
+            ops.append(["all"])
+        out.append(ops)
+    return out
+
+
 def _hyp_sequences(seed: int, n: int, min_ops: int = 1) -> List[List[Op]]:
     import hypothesis
     from hypothesis import HealthCheck, given, settings, strategies as st
@@ -1274,8 +1817,17 @@ def _hyp_sequences(seed: int, n: int, min_ops: int = 1) -> List[List[Op]]:
                   st.sampled_from(EXEC_TEMPLATES).flatmap(
                       lambda t: st.tuples(*([st.just(t[0])] + [operand] * t[1])).map("".join)),
                   st.integers(0, 0xFFFFFFFF)))
+    bad_kind = st.sampled_from(BAD_KINDS)
+    observe_ = st.one_of(
+        st.tuples(st.just("observe"), slot, st.sampled_from(["diff", "rdiff", "eq"]), st.one_of(slot, st.just("cur"))),
+        st.tuples(st.just("observe"), slot, st.sampled_from(["to_dict", "repr", "pack"]), st.none()),
+        st.tuples(st.just("observe"), slot, st.just("step"), st.just(NOP)))
+    refused = st.one_of(
+        st.tuples(st.just("badname"), st.sampled_from(BAD_ACCESS), st.sampled_from(BAD_NAMES), value),
+        st.tuples(st.just("badload"), bad_kind),
+        st.tuples(st.just("rtf"), bad_kind))
     other = st.one_of(st.tuples(st.just("get"), name), st.tuples(st.just("getflag"), flag), st.just(("all",)),
-                      snap, snap, st.just(("collect",)), take, apply_, apply_, exec_)
+                      snap, snap, st.just(("collect",)), take, apply_, apply_, exec_, observe_, refused)
     op = st.one_of(write, write, other)
     seqs: List[List[Op]] = []
 
@@ -1289,6 +1841,8 @@ def _hyp_sequences(seed: int, n: int, min_ops: int = 1) -> List[List[Op]]:
         for o in ops:
             if has_exec and o[0] == "rtf":
                 o = ("rtb",)  # the machine-level file path and executed instructions are not combined
+            if has_exec and o[0] == "badload":
+                o = ("all",)
             out.append(list(o))
             if dense and o[0] in ("set", "setflag"):
                 out.append(["all"])
@@ -1337,8 +1891,20 @@ def stream_sequences(seed: int, shard: int, n: int) -> List[List[Op]]:
                     ops.append(["set", name(), value()])
                 else:
                     ops.append(["setflag", fl, value()])
-            elif r < 74:
+            elif r < 71:
                 ops.append(["get", name()])
+            elif r < 73:
+                ops.append(["observe", st.below(SLOTS), st.choice(OBSERVERS[:6]),
+                            st.choice((0, 1, 2, 3, "cur", "cur"))] if st.chance(2, 3)
+                           else ["observe", st.below(SLOTS), "step", NOP])
+            elif r < 74:
+                if st.chance(1, 2):
+                    ops.append(["badname", st.choice(BAD_ACCESS), st.choice(BAD_NAMES), value()])
+                elif executes:
+                    ops.append(["all"])
+                else:
+                    ops.append(["badload", st.choice(BAD_KINDS)] if st.chance(1, 2)
+                               else ["rtf", st.choice(BAD_KINDS)])
             elif r < 78:
                 ops.append(["getflag", st.choice(("C", "Z"))])
             elif r < 84:
@@ -1429,6 +1995,12 @@ def _shard_inner(task: Tuple[str, int, int, int, str, int]) -> Report:
         rep.extra["sweep_generation_cases"] = len(items)
     elif kind == "deferred":
         eval_batch([("deferred", ops) for ops in deferred_sequences(seed, shard, n)], rep)
+    elif kind == "round4":
+        eval_batch([("round4", ops) for ops in round4_sequences(seed, shard, n)], rep)
+    elif kind == "sweep4":
+        items = [(fam, ops) for k, (fam, ops) in enumerate(sweep_round4_cases(tier)) if k % nshards == shard]
+        eval_batch(items, rep)
+        rep.extra["sweep_round4_cases"] = len(items)
     elif kind == "sweep3":
         items = [(fam, ops) for k, (fam, ops) in enumerate(sweep_round3_cases(tier)) if k % nshards == shard]
         eval_batch(items, rep)
@@ -1446,8 +2018,9 @@ def run(ctx: Ctx) -> Report:
     rust = rsclient.Rust()
     try:
         resp = rust.call({"cmd": "c08.names"})
-    finally:
+    except BaseException:
         rust.close()
+        raise
     names = resp.get("names")
     if list(names or []) != list(NAMES):
         raise HarnessError(f"register name order mismatch between harness sides: {names}")
@@ -1460,6 +2033,7 @@ def run(ctx: Ctx) -> Report:
     n_gen = ctx.pick(40, 150)
     n_gen_shards = 16
     n_def = ctx.pick(120, 600)
+    n_r4 = ctx.pick(60, 300)
     tasks: List[Tuple[str, int, int, int, str, int]] = []
     for i in range(n_sweep):
         tasks.append(("sweep", i, n_sweep, ctx.seed, ctx.tier, 0))
@@ -1468,11 +2042,18 @@ def run(ctx: Ctx) -> Report:
         tasks.append(("gen", i, n_gen_shards, mix32(0xC08, ctx.seed, 0x6E6E), ctx.tier, n_gen))
         tasks.append(("sweep3", i, n_gen_shards, ctx.seed, ctx.tier, 0))
         tasks.append(("deferred", i, n_gen_shards, mix32(0xC08, ctx.seed, 0xDEFE), ctx.tier, n_def))
+        tasks.append(("sweep4", i, n_gen_shards, ctx.seed, ctx.tier, 0))
+        tasks.append(("round4", i, n_gen_shards, mix32(0xC08, ctx.seed, 0x0B5E), ctx.tier, n_r4))
     for i in range(n_hyp_shards):
         # not ctx.shard_seed(i): mix32(seed, i, ..) xors seed and i before mixing, so small seeds would only
         # permute one set of shard seeds (seed 1 shard 1 == seed 2 shard 2); mix the run seed in first.
         tasks.append(("hyp", i, n_hyp_shards, mix32(0xC08, ctx.seed, i, 0x5EED), ctx.tier, n_hyp))
         tasks.append(("stream", i, n_hyp_shards, mix32(0xC08, ctx.seed, 0x57EA), ctx.tier, n_stream))
+    try:
+        _ensure_bad(rust)   # contents of the snapshot files the loaders must refuse: built once, inherited by the fork
+    finally:
+        rust.close()
+        _remove_scratch_dir()
     reports = ctx.pmap(_shard, tasks)
     rep = ctx.merge_reports(reports)
     check_arch_table(rep)
@@ -1483,6 +2064,8 @@ def run(ctx: Ctx) -> Report:
     rep.extra["stream_sequences"] = n_hyp_shards * n_stream
     rep.extra["generation_sequences"] = n_gen_shards * n_gen
     rep.extra["deferred_sequences"] = n_gen_shards * n_def
+    rep.extra["round4_sequences"] = n_gen_shards * n_r4
+    rep.extra["rejected_load_kinds"] = list(BAD_KINDS)
     rep.assumptions = [
         "pointer registers X, Y, U, S are 20 bits as the property statement says (the README table says 24)",
         "FC/FZ (and the C/Z flag API) are 1-bit registers: a written value is truncated to bit 0 (README: size 1)",
@@ -1517,6 +2100,19 @@ def run(ctx: Ctx) -> Report:
         "a deferred snapshot is compared with what the same register file read when the snapshot was taken; blob "
         "snapshots are serialised when taken (registers.bin bytes + TEMPs), as save_snapshot does",
         "histories that execute instructions never use the machine-level snapshot file path (their 'rtf' is 'rtb')",
+        "rejected operations: a load_snapshot call that is OBSERVED to fail (exception / Err) must leave every "
+        "readable register as it was -- the statement's 'a read returns the last value written' with no write in "
+        "between; the 17 kinds of bad files are the reasons the two loaders reject by their own validation code and "
+        "are derived from a valid snapshot saved by the same implementation; a load that is unexpectedly accepted is "
+        "not a verdict (label rejected-load:ACCEPTED, the rest of that history is not judged for that register "
+        "file); memory, counters and devices after a rejected load are not looked at (C16/C17); the bare Rust "
+        "LlamaState and the bare Python Registers/CPU facade have no loader, the op is a no-op there",
+        "by-name access with a name that is no register (13 upper-case non-names; Python raises, the Rust facade "
+        "ignores it) must not change any register -- asserted whether or not the call raises",
+        "observers of a live snapshot (diff, ==, to_dict, repr, registers.bin packer, CPUStepper.step / "
+        "CPU.step_snapshot taking it as input) are read-only uses: what the snapshot restores into a brand-new "
+        "Registers() (`apply_to`) / LlamaState (`apply_registers`) must be the same before and after; what the "
+        "observers return (diff contents, step results) is not asserted; an observer that raises is not a verdict",
         "Python == model and Rust == model imply Python == Rust; a separate differential verdict exists only "
         "for TEMP values",
     ]
